@@ -38,6 +38,8 @@ from funsor.terms import Funsor
 from funsor.interpretations import reflect, lazy, eager, memoize
 from funsor.domains import Domain
 
+import warnings
+warnings.filterwarnings("ignore", category=SyntaxWarning)
 GEN = LEAN / "FunsorVerif" / "Gen"
 CONFIGS = [(0, 0), (1, 0), (0, 1), (1, 1)]          # (FUNSOR_USE_TCO, FUNSOR_TYPECHECK)
 
@@ -65,7 +67,11 @@ def funsor_classes():
                 seen.append(s)
                 walk(s)
     walk(Funsor)
-    out = [c for c in seen if not getattr(c, "__args__", None) and c.__module__.startswith("funsor.")]
+    # classes defined in funsor's own source (user terms made with make_funsor at run time report
+    # __module__ == "funsor.factory" but are not attributes of that module: they are exercised by
+    # make_funsor_stream / the user-terms family, not listed in the table)
+    out = [c for c in seen if not getattr(c, "__args__", None) and c.__module__.startswith("funsor.")
+           and getattr(sys.modules.get(c.__module__), c.__name__, None) is c]
     return sorted(out, key=lambda c: c.__name__), skipped
 
 
@@ -384,6 +390,7 @@ def replay_python(recipe, ins, env, cfg, mode, spec=None):
         spec_vals = [[float(x) for x in cell[1]] for cell in spec]
     return (f"# run as: FUNSOR_USE_TCO={cfg[0]} FUNSOR_TYPECHECK={cfg[1]} /venv/bin/python this_file.py\n"
             + gen_terms.PY_HEADER + "from funsor.domains import Real\n" + SNIPPET_HELPERS
+            + (W.USER_SRC if W.has_user(recipe) else "")
             + f"def mk():\n    return {py_of(recipe)}\n"
             + f"ins = {[(n, s) for n, s in ins]!r}\nenv = {env!r}\n"
             + "expected = table(mk(), ins, env)\n"
@@ -397,6 +404,14 @@ def replay_python(recipe, ins, env, cfg, mode, spec=None):
 
 
 def py_of(r):
+    if r[0] == "user":
+        p = dict(r[2])
+        args = [py_of(p[n]) if n in ("x", "w") else repr(p[n]) for n in W.USER_CLASSES[r[1]][0].split()]
+        return f"{r[1]}({', '.join(args)})"
+    if r[0] == "reduceall":
+        return f"({py_of(r[2])}).reduce(ops.{gen_terms._pyop(r[1])})"
+    if r[0] == "subs":
+        return f"({py_of(r[1])})(**{{" + ", ".join(f"{k!r}: {py_of(v)}" for k, v in r[2]) + "})"
     if r[0] == "var" and not isinstance(r[2], int):
         return f"Variable({r[1]!r}, Real)"
     if r[0] in ("binary",):
@@ -683,6 +698,8 @@ def spec_requests(ctx, cs):
         reqs.append(f"C03 denote {sx(wire)} {sx(ser.ins_wire(ins))} {envw}")
         meta.append((idx, "spec", ins))
         try:
+            if W.has_user(recipe):
+                raise ser.Unsupported("user term")
             with reflect:
                 syn = gen_terms.build(recipe)
             w2 = ser.to_wire(syn)
@@ -749,6 +766,10 @@ def correspond(ctx):
                 "add/mul/sub/max/min or a three-term product, bare or wrapped in sub / truediv / add / outer reduce / second "
                 "unary / substitution / renaming; the exact (unary, red_op, bin_op) grid is walked first, in order; "
                 "expressions with inexact ops are compared after rounding to 8 digits against the eager build), "
+                "1/10 user-defined terms made with funsor.factory.make_funsor (15 classes: every declaration order of Bound / "
+                "Funsor / Has / Fresh parameters, one and two binders, Fresh output names; bare, followed by .reduce(op) over ALL "
+                "inputs, by (t+z).reduce(op), or by substituting an index tensor that depends on a free variable named like the "
+                "bound one; spec = Lean denote of the defining expression), "
                 "1/5 sum-product shapes (product of 2-4 factors reduced by add/max/min, optionally in two elimination steps), "
                 "1/5 reductions of LAZY bodies with a free real variable (exercise sequential_reduce); each case is run in 4 "
                 "sub-process configurations FUNSOR_USE_TCO x FUNSOR_TYPECHECK under ~32 modes (eager; lazy/reflect/normalize/"
